@@ -194,7 +194,8 @@ struct C19Line {
                 e2 = x;
         }
         ld etam = e2 >= 0 ? e2 : (e1 >= 0 ? e1 : 0);
-        q.unc   = spread + eps * (ulps * mag + sens * sw) + 2 * etam * sw;
+        // the second smallest of ~7 |noise| samples is about 0.3 sigma; 10 * etam ~ 3 sigma per sample
+        q.unc   = spread + eps * (ulps * mag + sens * sw) + 10 * etam * sw;
         return q;
     }
 };
